@@ -486,6 +486,31 @@ def group_scan(cx):
                         flags.append(s)
     cx.check(len(flags) == 1, "ungrouped", "meeting an entry without a group clears the single-group flag")
     n += 1
+    # the scan looks at EVERY gathered entry until it finds two groups: from an element the only ways on are the next
+    # element or the two-group verdict -- no other early exit (an entry skipped or a scan cut short hides the second group)
+    scan_next = {c.block for sp, c in cx.prog.calls_out[f.key] if c.kind == "call" and sp.endswith("::next") and "Iterator" in sp
+                 and any(is_item_gid(l[1]) for n_ in g.by_block.get(c.block, []) for m_, ls in [(None, [])] for l in ls)} if False else set()
+    for n_ in range(len(g.nodes)):
+        for m_, ls in g.edges[n_] or []:
+            for l in ls:
+                if (l[0] in ("in", "notin") and is_item_gid(l[1])) or (l[0] == "is" and any(is_item_gid(x) for x in walk(l[1]))):
+                    for x in walk(l[1]):
+                        if x[0] == "call" and x[1].endswith("::next"):
+                            scan_next |= {c.block for sp, c in cx.prog.calls_out[f.key] if c.kind == "call" and strip_generics(sp) == strip_generics(x[1])}
+    verdict = set()
+    for bi in sorted(a.reach):
+        for si, st in enumerate(f.body.blocks[bi]["stmts"]):
+            if st.get("k") == "assign" and not st["place"]["p"] and st["rv"].get("agg") == "tuple":
+                # (the result place, or the result of a helper the scan was moved into and that was spliced back)
+                v_ = a.expr_rvalue(st["rv"], (bi, si))
+                if v_[0] == "tuple" and len(v_[1]) == 2 and v_[1][1] == ("bool", True) and as_min(v_[1][0]) is not None:
+                    verdict.add(bi)
+    if scan_next:
+        def element(l):
+            return l[0] == "in" and l[2] == frozenset(["Some"]) and l[1][0] == "call" and l[1][1].endswith("::next") and any(c_.block in scan_next for sp, c_ in cx.prog.calls_out[f.key] if c_.kind == "call" and strip_generics(sp) == strip_generics(l[1][1]))
+        oke, ne = g.after_edge_must_pass(lambda lits: any(element(l) for l in lits), lambda b: b in scan_next or b in verdict)
+        cx.check(oke and ne >= 1, "every-entry", "the group scan goes from each gathered entry to the next one or to the two-group verdict: it is never cut short")
+        n += 1
     cx.check(n >= 3, "floor", "group scan sites were found")
 
 
